@@ -16,11 +16,11 @@ def rand_curve(rng, rational=None, maxp=5, dim=None, max_interior=4, clamped=Tru
     return dict(kind='curve', rat=rat, p=p, kv=kv, n=n, P=P, dim=dim)
 
 
-def rand_surface(rng, rational=None, maxp=4, dim=3, max_interior=3, allow_range=True, max_mult=None):
+def rand_surface(rng, rational=None, maxp=4, dim=3, max_interior=3, allow_range=True, max_mult=None, clamped=True):
     while True:
         pu, pv = rng.randint(1, maxp), rng.randint(1, maxp)
-        kvu, su = G.knots(rng, pu, max_interior=max_interior, allow_range=allow_range, max_mult=max_mult)
-        kvv, sv = G.knots(rng, pv, max_interior=max_interior, allow_range=allow_range, max_mult=max_mult)
+        kvu, su = G.knots(rng, pu, max_interior=max_interior, allow_range=allow_range, max_mult=max_mult, clamped=clamped)
+        kvv, sv = G.knots(rng, pv, max_interior=max_interior, allow_range=allow_range, max_mult=max_mult, clamped=clamped)
         if su != sv and pu != pv:     # a u/v mix-up must show
             break
     rat = (rng.random() < .5) if rational is None else rational
@@ -31,10 +31,10 @@ def rand_surface(rng, rational=None, maxp=4, dim=3, max_interior=3, allow_range=
     return dict(kind='surface', rat=rat, pu=pu, pv=pv, kvu=kvu, kvv=kvv, su=su, sv=sv, P=P, dim=dim)
 
 
-def rand_volume(rng, rational=None, maxp=3, dim=3, max_interior=2, allow_range=True):
+def rand_volume(rng, rational=None, maxp=3, dim=3, max_interior=2, allow_range=True, clamped=True):
     while True:
         ps = [rng.randint(1, maxp) for _ in range(3)]
-        ks = [G.knots(rng, p, max_interior=max_interior, allow_range=allow_range) for p in ps]
+        ks = [G.knots(rng, p, max_interior=max_interior, allow_range=allow_range, clamped=clamped) for p in ps]
         sizes = [k[1] for k in ks]
         if len(set(sizes)) == 3:
             break
